@@ -449,6 +449,15 @@ static void runCtor(Slot<T> &s, const Label &lb, Result &r) {
   }
 }
 
+template <class P>
+static const E *arrowOf(P *p) {
+  return p;
+}
+template <class It>
+static const E *arrowOf(const It &it) {
+  return it.operator->();
+}
+
 template <class T>
 static void run1(Slot<T> &s, const Label &lb, Result &r) {
   T &v = *s.p;
@@ -629,9 +638,10 @@ static void run1(Slot<T> &s, const Label &lb, Result &r) {
   } else if (op == "iterate") {
     guarded(lb, r, [&] {
       long fw = 0, bw = 0, m = 1, nf = 0;
-      for (auto it = cv.begin(); it != cv.end(); ++it) fw = fw * 31 + valOf(*it) + 1, ++nf;
-      for (auto it = cv.rbegin(); it != cv.rend(); ++it) bw += (valOf(*it) + 1) * m, m *= 31;
-      r.val(fw == bw ? nf : -1);
+      bool arrowOk = true;  // it-> designates the element *it designates, forwards and backwards
+      for (auto it = cv.begin(); it != cv.end(); ++it) fw = fw * 31 + valOf(*it) + 1, ++nf, arrowOk = arrowOk && arrowOf(it) == &*it;
+      for (auto it = cv.rbegin(); it != cv.rend(); ++it) bw += (valOf(*it) + 1) * m, m *= 31, arrowOk = arrowOk && arrowOf(it) == &*it;
+      r.val(!arrowOk ? -2 : fw == bw ? nf : -1);
     });
   } else if (op == "extractKey") {
     tmp.emplace(lb.v);
